@@ -110,6 +110,9 @@ def run(prop, tier, seed):
         keys = [k for k in keys if not (k[0] == 0 and k[1] < 0)] or keys
         vals = gen.val_universe(rng)
         ops = gen.random_history(rng, length, keys, vals, FOPS)
+        # lifecycle of the sharded cache itself: pickle / copy / reopen at random points
+        for _ in range(rng.randint(0, 4)):
+            ops.insert(rng.randrange(len(ops) + 1), {'op': rng.choice(['pickle', 'pickle', 'copy', 'reopen']), 'a': {}})
         for o in ops:
             if o['op'] == 'iter':
                 o['a']['sorted'] = 0
